@@ -61,3 +61,10 @@ Print Assumptions C04_pepper.
 Example C04_rfc6070 : pbkdf2_vec SHA1 [112;97;115;115;119;111;114;100] [115;97;108;116] 2 20 =
   Ok [0xea;0x6c;0x01;0x4d;0xc7;0x2d;0x6f;0x8c;0xcd;0x1e;0xd9;0x2a;0xce;0x1d;0x41;0xf0;0xd8;0xde;0x89;0x57].
 Proof. vm_compute. reflexivity. Qed.
+
+(* one whole block of the derived key is F(P, S, c, i) - in particular for block indices above 255 and above 65535, where the
+   correspondence derives a long output and compares its last blocks with F computed directly *)
+Theorem C04_block : forall (t : hash_t) (P S : list N) (c l i : nat), (1 <= i <= l)%nat ->
+  firstn (digest_size t) (skipn ((i - 1) * digest_size t) (PBKDF2_spec t P S c (l * digest_size t))) = pbkdf2_F t P S c (N.of_nat i).
+Proof. exact pbkdf2_spec_block. Qed.
+Print Assumptions C04_block.
